@@ -179,6 +179,7 @@ func main() {
 		}
 		// ---- contract-side parse
 		k := kinds[kn]
+		solJudge(k.name, v, want, w)
 		judge(k, core, v, want, w)
 		if i < 3 {
 			r.Sample(w)
@@ -203,6 +204,105 @@ type expect struct {
 	module     []byte              // expected 32-byte module (left-padded request module) when operator-chosen
 	refund     []byte
 	seqs       []uint64
+}
+
+// ---------------------------------------------------------------- the Ethereum contracts' parsers
+
+type solKind struct{ file, fn string }
+
+var solKinds = map[string]solKind{
+	"GuardianSet":      {"/ethereum/contracts/GovernanceStructs.sol", "parseGuardianSetUpgrade"},
+	"UpdateMessageFee": {"/ethereum/contracts/GovernanceStructs.sol", "parseSetMessageFee"},
+	"TransferFee":      {"/ethereum/contracts/GovernanceStructs.sol", "parseTransferFees"},
+	"ContractUpgrade":  {"/ethereum/contracts/GovernanceStructs.sol", "parseContractUpgrade"},
+	"RegisterChain":    {"/ethereum/contracts/bridge/BridgeGovernance.sol", "parseRegisterChain"},
+	"BridgeUpgrade":    {"/ethereum/contracts/bridge/BridgeGovernance.sol", "parseUpgrade"},
+}
+var solOff = map[string]bool{}
+var solModule *big.Int
+
+// solJudge runs the Ethereum-side parser of the same governance action (interpreted from the Solidity source) on the
+// payload the node produced: it must not revert on a layout the node emits, and it must read the requested values.
+// Upgrade payloads are only comparable when they have the shape the Ethereum contracts expect (one 32-byte word).
+func solJudge(kind string, v *vaa.VAA, want expect, w map[string]interface{}) {
+	sk, ok := solKinds[kind]
+	if !ok || solOff[kind] {
+		return
+	}
+	p := v.Payload
+	if (kind == "ContractUpgrade" || kind == "BridgeUpgrade") && len(want.tail) != 32 {
+		return
+	}
+	consts := map[string]*big.Int{}
+	if strings.Contains(sk.file, "bridge/") {
+		if solModule == nil {
+			m := regexp.MustCompile(`bytes32\s+constant\s+module\s*=\s*(0x[0-9a-fA-F]{64})`).FindStringSubmatch(readFile(vlib.Repo() + sk.file))
+			if m == nil {
+				r.Inconclusive("module constant not found in " + sk.file)
+				solOff[kind] = true
+				return
+			}
+			solModule, _ = new(big.Int).SetString(m[1], 0)
+		}
+		if len(p) < 32 || new(big.Int).SetBytes(p[:32]).Cmp(solModule) != 0 {
+			return // operator-chosen module names another contract
+		}
+		consts["module"] = solModule
+	}
+	res, err := csrc.SolRunParser(vlib.Repo()+sk.file, sk.fn, p, consts)
+	if err != nil {
+		r.Inconclusive("solidity interpreter: " + err.Error())
+		solOff[kind] = true
+		return
+	}
+	r.Count("ethereum_contract_parses", 1)
+	r.Count("ethereum_contract_parses_"+kind, 1)
+	if res.Reverted {
+		w["ethereum_contract_revert"] = res.Reason
+		r.Violation("ethereum-contract-rejects-payload-layout:"+kind+":"+want.class, w)
+		return
+	}
+	cmp := func(field string, wantV *big.Int) {
+		got, ok := res.Ints[field]
+		if !ok {
+			r.Inconclusive(fmt.Sprintf("solidity field %s of %s not evaluable", field, sk.fn))
+			solOff[kind] = true
+			return
+		}
+		r.Count("ethereum_values_compared", 1)
+		if got.Cmp(wantV) != 0 {
+			w["contract_variable"], w["contract_value"], w["requested_value"] = field, got.String(), wantV.String()
+			r.Violation("ethereum-contract-reads-another-value:"+kind+":"+field+":"+want.class, w)
+		}
+	}
+	switch kind {
+	case "GuardianSet":
+		cmp("guardianLength", want.ints["newGuardianSetSize"])
+		if want.setIndex != 0xffffffff {
+			cmp("newGuardianSetIndex", bi(uint64(want.setIndex)+1))
+		}
+		var keys []byte
+		for _, k := range res.Lists["keys"] {
+			keys = append(keys, k...)
+		}
+		if !bytes.Equal(keys, want.keys) {
+			r.Violation("ethereum-contract-reads-other-guardian-keys:"+want.class, w)
+		}
+	case "UpdateMessageFee":
+		if f, ok := want.ints["fee"]; ok {
+			cmp("messageFee", f)
+		}
+	case "TransferFee":
+		if a, ok := want.ints["amount"]; ok {
+			cmp("amount", a)
+		}
+	case "RegisterChain":
+		cmp("emitterChainID", want.ints["remoteChainId"])
+	case "ContractUpgrade":
+		cmp("newContract", new(big.Int).SetBytes(want.tail[12:]))
+	case "BridgeUpgrade":
+		cmp("newContract", new(big.Int).SetBytes(want.tail))
+	}
 }
 
 func judge(k *kindInfo, core *csrc.Ralph, v *vaa.VAA, want expect, w map[string]interface{}) {
@@ -399,6 +499,13 @@ func genRequest(rng *rand.Rand) (string, *nodev1.GovernanceMessage, expect) {
 			pl = append(pl, f1...)
 			pl = append(pl, byte(len(f2)>>8), byte(len(f2)))
 			pl = append(pl, f2...)
+		}
+		if rng.Intn(5) == 0 { // the shape the Ethereum contracts expect: one 32-byte word (address of the new implementation)
+			pl = make([]byte, 32)
+			rng.Read(pl[12:])
+			if rng.Intn(2) == 0 {
+				rng.Read(pl)
+			}
 		}
 		s := hex.EncodeToString(pl)
 		switch rng.Intn(8) {
